@@ -103,7 +103,7 @@ PrService(d) ==
 PrDevice(d) ==
     <<W("device"), W(d.name), P("{")>> \o Flat([i \in 1..Len(d.fields) |-> ExtToks(d.fields[i])]) \o <<P("}")>>
 PrMod(d) ==
-    <<W("mod"), W(d.path[1])>> \o Flat([i \in 2..Len(d.path) |-> <<P("."), W(d.path[i])>>]) \o <<P(";")>>
+    <<W("mod"), W(d.path[1])>> \o Flat([i \in 1..(Len(d.path) - 1) |-> <<P("."), W(d.path[i + 1])>>]) \o <<P(";")>>
 PrPreamble == <<W("version"), P(":"), Q("3")>>
 
 DeclToks(d, style) ==
